@@ -539,6 +539,18 @@ def run(ctx):
             w2[rng.randrange(n)] = rng.choice(wl)
             cases.append((eval_mnemonic_case, {'kind': 'validate', 'what': 'one-word-changed', 'words': w2}))
             cases.append((eval_mnemonic_case, {'kind': 'validate', 'what': 'random-words', 'words': [rng.choice(wl) for _ in range(n)]}))
+    # entropy with leading / trailing zero bytes and all-zero / all-one entropy, every length: the checksum is taken over the entropy at its
+    # full width (a leading zero byte is part of it), and a changed last word makes such a mnemonic invalid like any other
+    for n in (12, 15, 18, 21, 24):
+        nb = n // 3 * 4
+        for z_front, z_back in ((1, 0), (2, 0), (4, 0), (0, 1), (1, 1), (nb, 0)):
+            ent = bytes(z_front) + bytes(rng.getrandbits(8) | 1 for _ in range(nb - z_front - z_back)) + bytes(z_back) if z_front < nb else bytes(nb)
+            w = m.to_mnemonic(ent).split(' ')
+            cases.append((eval_mnemonic_case, {'kind': 'validate', 'what': f'valid:zero-bytes-{z_front}-front-{z_back}-back', 'words': w}))
+            w2 = list(w)
+            w2[-1] = wl[(wl.index(w[-1]) + rng.randrange(1, 2048)) % 2048]
+            cases.append((eval_mnemonic_case, {'kind': 'validate', 'what': 'last-word-changed:zero-bytes-front', 'words': w2}))
+        cases.append((eval_mnemonic_case, {'kind': 'validate', 'what': 'valid:all-ones', 'words': m.to_mnemonic(b'\xff' * nb).split(' ')}))
     for n in (0, 1, 11, 13, 14, 16, 23, 25, 36):
         cases.append((eval_mnemonic_case, {'kind': 'validate', 'what': 'wrong-count', 'words': [rng.choice(wl) for _ in range(n)]}))
     w = valid_mnemonic(12)
